@@ -512,6 +512,14 @@ def rexpr(e):
             rc = rc["e"] if rc["k"] == "addr" else rc
             return "%s.%s(%s)" % (rexpr(rc), e["f"].split(".")[1], ", ".join(rexpr(a) for a in e["args"][1:]))
         return "%s(%s)" % (e["f"], ", ".join(rexpr(a) for a in e["args"]))
+    if k == "none":
+        return "none"
+    if k == "some":
+        return rexpr(e["e"])
+    if k == "coal":
+        return "(%s ?? %s)" % (rexpr(e["e"]), rexpr(e["d"]))
+    if k == "isnone":
+        return "(%s %s none)" % (rexpr(e["e"]), "!=" if e["neg"] else "==")
     if k == "catch":
         if e["h"]:
             out = []
